@@ -85,7 +85,7 @@ def gen(args):
     wid, n, sd = args
     rng = np.random.default_rng([sd, wid, 1212])
     out = []
-    for t in range(n):
+    for t in core.timed(range(n)):
         nn, d = int(rng.integers(2, 9)), int(rng.integers(1, 4))
         Phi = rng.integers(-4, 5, size=(nn, d))
         wk = int(rng.integers(4))
